@@ -1405,9 +1405,21 @@ impl Exec {
             }
             "gc" => {
                 let slot = a.first()?.nat()?;
+                let fronts_before: Vec<(ChitchatId, u64, u64)> = self.nodes.get(&slot)?.cc.node_states().iter()
+                    .map(|(id, ns)| (id.clone(), ns.last_gc_version(), ns.max_version())).collect();
                 let _g = self.rt.enter();
                 verif::cc_gc_keys_marked_for_deletion(&mut self.nodes.get_mut(&slot)?.cc);
                 drop(_g);
+                // C04: a GC pass never moves the (GC watermark, max version) of a copy backward
+                for (id, g0, m0) in fronts_before {
+                    if let Some(ns) = self.nodes.get(&slot)?.cc.node_state(&id) {
+                        let (g1, m1) = (ns.last_gc_version(), ns.max_version());
+                        if g1 < g0 || m1 != m0 {
+                            self.monitor_hit("C04", "gc-frontier", &format!(
+                                "a GC pass moved the (GC watermark, max version) of the copy of {:?} from ({g0}, {m0}) to ({g1}, {m1})", id.node_id));
+                        }
+                    }
+                }
                 let now = self.now_ticks();
                 {
                     let ctx = self.nodes.get_mut(&slot)?;
@@ -1687,7 +1699,7 @@ impl Exec {
             }
             "usend" => {
                 // (usend msg peer|unreach): the real UdpSocket sends; a raw socket observes the wire
-                use chitchat::Serializable;
+                use chitchat::{Deserializable, Serializable};
                 use crate::udp_suite::SendObs;
                 let pm = r_msg(a.first()?)?;
                 let dest = a.get(1)?.atom()?.to_string();
@@ -1714,6 +1726,20 @@ impl Exec {
                         // reason of its own (oversized datagram, unreachable destination)
                         if let Some(exp) = &expected {
                             let sendable = dest == "peer" && exp.len() <= verif::MAX_UDP_DATAGRAM_PAYLOAD_SIZE;
+                            if ok && matches!(pm, PMsg::BadCluster) && (received.len() != 1 || &received[0] != exp) {
+                                // C16, stated on the wire: the answer to a foreign SYN is the rejection and
+                                // nothing else — what the foreign node decodes is the first message of the datagram
+                                let first = received.first().map(|d| match ChitchatMessage::deserialize(&mut &d[..]) {
+                                    Ok(ChitchatMessage::Syn { .. }) => "a SYN",
+                                    Ok(ChitchatMessage::SynAck { .. }) => "a SYN-ACK (digest and delta of this cluster)",
+                                    Ok(ChitchatMessage::Ack { .. }) => "an ACK (delta of this cluster)",
+                                    Ok(ChitchatMessage::BadCluster) => "a rejection followed by other bytes",
+                                    Err(_) => "undecodable bytes",
+                                }).unwrap_or("nothing");
+                                self.monitor_hit("C16", "udp-rejection", &format!(
+                                    "the BadCluster rejection sent to a reachable node arrived as {} datagram(s) of {:?} bytes that decode to {first}: the foreign node is not answered with the rejection only",
+                                    received.len(), received.iter().map(|d| d.len()).collect::<Vec<_>>()));
+                            }
                             if ok && (received.len() != 1 || &received[0] != exp) {
                                 self.monitor_hit("C19", "udp-datagram", &format!(
                                     "send returned Ok but the peer received {} datagram(s) of {:?} bytes instead of the {}-byte serialization of the message",
@@ -1889,6 +1915,8 @@ impl Exec {
                 let remembered = verif::cc_last_heartbeat_if_deleted(&self.nodes.get(&slot)?.cc, &id).is_some();
                 let live_before: BTreeSet<ChitchatId> = self.nodes.get(&slot)?.cc.live_nodes().cloned().collect();
                 let supplied: BTreeMap<String, u64> = kvs.iter().map(|(k, v)| (k.clone(), v.version)).collect();
+                let supplied_full: Vec<(String, String, u64, bool)> = kvs.iter()
+                    .map(|(k, v)| (k.clone(), v.value.clone(), v.version, matches!(v.status, DeletionStatus::Deleted(_)))).collect();
                 let _g = self.rt.enter();
                 let ctx = self.nodes.get_mut(&slot)?;
                 let r = catch_unwind(AssertUnwindSafe(|| {
@@ -1934,6 +1962,31 @@ impl Exec {
                 match r {
                     Ok(()) => {
                         let evs = Self::take_events(self.nodes.get(&slot)?);
+                        // C15, stated on the catch-up entry point: the catch-all subscription hears exactly
+                        // the supplied non-deleted key-values that are newer than what the copy held
+                        // (nothing at all when the catch-up left the copy alone)
+                        {
+                            let after = self.snapshot_copy(slot, &id);
+                            let mut expect: Vec<(String, String)> = Vec::new();
+                            // a copy that was only created (still empty) was not caught up
+                            let shape = |c: &Option<PCopy>| c.as_ref().map(|c| (c.last_gc, c.max_version, c.kvs.clone())).unwrap_or((0, 0, Vec::new()));
+                            if shape(&after) != shape(&before) {
+                                for (k, v, ver, deleted) in &supplied_full {
+                                    let old = before.as_ref().and_then(|b| b.kvs.iter().find(|e| &e.0 == k).map(|e| e.2));
+                                    if !deleted && old.map(|o| o < *ver).unwrap_or(true) {
+                                        expect.push((k.clone(), v.clone()));
+                                    }
+                                }
+                            }
+                            expect.sort();
+                            let mut got: Vec<(String, String)> = evs.iter().filter(|e| e.0 == id).map(|e| (e.1.clone(), e.2.clone())).collect();
+                            got.sort();
+                            if got != expect || evs.iter().any(|e| e.0 != id) {
+                                self.monitor_hit("C15", "catchup-events", &format!(
+                                    "the catch-up for member {:?} produced the key-change events {:?} but the supplied non-deleted key-values newer than the copy's are {:?}",
+                                    id.node_id, &got.iter().take(4).collect::<Vec<_>>(), &expect.iter().take(4).collect::<Vec<_>>()));
+                            }
+                        }
                         let node = self.p_node(slot);
                         Some((line, plist("ok", [self.p_evc(slot, &evs), node])))
                     }
@@ -1942,6 +1995,42 @@ impl Exec {
                         Some((line, p_panic(&take_panic())))
                     }
                 }
+            }
+            "catchupfrom" => {
+                // (catchupfrom a c x): the application on node `a` fetches node `c`'s copy of the member
+                // owned by node `x` and feeds it through the catch-up entry point (honest catch-up);
+                // executed — and shown to the model — as the concrete `(catchup a id kvs max gc)`
+                let to = a.first()?.nat()?;
+                let from = a.get(1)?.nat()?;
+                let owner = a.get(2)?.nat()?;
+                if to == owner || to == from || !self.nodes.contains_key(&to) {
+                    return Some(("(nop)".into(), "(nop)".into()));
+                }
+                let Some(id) = self.nodes.get(&owner).map(|c| c.id.clone()) else { return Some(("(nop)".into(), "(nop)".into())) };
+                let Some(copy) = self.snapshot_copy(from, &id) else { return Some(("(nop)".into(), "(nop)".into())) };
+                let kvs: Vec<String> = copy.kvs.iter().map(|(k, v, ver, st, _)| {
+                    plist("kv", [hex(k.as_bytes()), hex(v.as_bytes()), ver.to_string(), ["S", "D", "T"][*st as usize].to_string(), "0".to_string()])
+                }).collect();
+                let raw = plist("catchup", [to.to_string(), p_id(&id), plist("", kvs), copy.max_version.to_string(), copy.last_gc.to_string()]);
+                let before = self.snapshot_copy(to, &id);
+                let src_tainted = self.tainted.contains(&(from, id.clone()));
+                let (l, o) = self.run_raw(&raw);
+                let after = self.snapshot_copy(to, &id);
+                let changed = match (&before, &after) {
+                    (Some(b), Some(a2)) => (b.last_gc, b.max_version, &b.kvs) != (a2.last_gc, a2.max_version, &a2.kvs),
+                    (None, Some(a2)) => a2.max_version > 0 || a2.last_gc > 0,
+                    _ => false,
+                };
+                if changed {
+                    // the copy now is what the source copy was: KF-1 taint travels with it
+                    if src_tainted {
+                        self.tainted.insert((to, id.clone()));
+                    } else {
+                        self.tainted.remove(&(to, id.clone()));
+                    }
+                }
+                self.run_ledger_checks(to);
+                Some((l, o))
             }
             "rmcopy" => {
                 // (rmcopy slot id remember): drop a copy; remember=1 goes through `remove_node`
